@@ -145,7 +145,7 @@ def boundary_checks(ctx):
 
 
 def oracle(ctx, hints=()):
-    ncells = ctx.n(3, 4, boost=5)
+    ncells = ctx.n(3, 4, boost=2)   # boost looks at all 237 settings (sample_settings), fewer cells each
     cases, skipped = c05.make_cases(ctx, ncells)
     viol, d2, evals, nontriv = [], 0, 0, 0
     bv, bn = boundary_checks(ctx)
